@@ -2,7 +2,7 @@
    which are predicates on the state the operation is applied to — and the history theorem over them. *)
 From Coq Require Import List ZArith NArith Bool Arith Lia.
 From IE Require Import Lib.C08Lib Gen.UndoGen Model.Undo Model.EditModel Model.EditOps Model.DocModel Model.DocOps Model.ScrollOps
-  Proofs.UndoProofs Proofs.LayerProofs Proofs.EditProofs Proofs.ApiProofs Proofs.DocProofs Proofs.ScrollProofs.
+  Proofs.UndoProofs Proofs.LayerProofs Proofs.EditProofs Proofs.ApiProofs Proofs.DocProofs Proofs.DocRowColProofs Proofs.ScrollProofs.
 Import ListNotations.
 Local Open Scope Z_scope.
 
@@ -409,6 +409,54 @@ Proof.
 Qed.
 
 (* ================================================================================================================
+   stage 5, continued: insert / delete row and column (sound since the fix commit for C08-rowcol-raw-lines) *)
+Lemma xpush_neg_row (e : XE) o i ln L : nth_error (xlayers (cur e)) i = Some L -> ln < 0 ->
+  (o = XDeleteRow i ln [] \/ o = XInsertRow i ln []) -> xpush o e = Panic 42.
+Proof.
+  intros Hn Hln Ho. unfold xpush, push_action. rewrite f_redo_leaf.
+  assert (Ha : as_index ln = Panic 42) by (unfold as_index; replace (ln <? 0) with true by (symmetry; apply Z.ltb_lt; exact Hln); reflexivity).
+  destruct Ho as [-> | ->]; cbn [xop_redo]; rewrite Hn, Ha; reflexivity.
+Qed.
+
+Lemma x_delete_row_sound e e' : x_delete_row e = Ok e' -> xedit_chain e e'.
+Proof.
+  intro H. unfold x_delete_row in H. destruct (get_current_layer (xb (cur e))) as [i| |] eqn:Ec; cbn [bind] in H; try discriminate.
+  destruct (get_current_layer_ok _ _ Ec) as (L & Hn). set (ln := caret_y (xb (cur e))) in *.
+  destruct (Z_lt_ge_dec ln 0) as [Hneg|Hpos]; [rewrite (xpush_neg_row e _ i ln L Hn Hneg (or_introl eq_refl)) in H; discriminate|].
+  destruct (xpush_sound _ _ e (XDeleteRow i ln []) (upd_x (cur e) i (del_row0 (Z.to_nat ln))) delrow_closed) as (e1 & E1 & C1 & _).
+  { exists i, ln, [], L. split; [reflexivity|]. split; [lia|]. split; [exact Hn|apply xeqv_refl]. }
+  xfinish H E1 C1.
+Qed.
+
+Lemma x_insert_row_sound e e' : x_insert_row e = Ok e' -> xedit_chain e e'.
+Proof.
+  intro H. unfold x_insert_row in H. destruct (get_current_layer (xb (cur e))) as [i| |] eqn:Ec; cbn [bind] in H; try discriminate.
+  destruct (get_current_layer_ok _ _ Ec) as (L & Hn). set (ln := caret_y (xb (cur e))) in *.
+  destruct (Z_lt_ge_dec ln 0) as [Hneg|Hpos]; [rewrite (xpush_neg_row e _ i ln L Hn Hneg (or_intror eq_refl)) in H; discriminate|].
+  destruct (xpush_sound _ _ e (XInsertRow i ln []) (upd_x (cur e) i (ins_row (Z.to_nat ln) [])) insrow_closed) as (e1 & E1 & C1 & _).
+  { exists i, ln, [], L. split; [reflexivity|]. split; [lia|]. split; [exact Hn|apply xeqv_refl]. }
+  xfinish H E1 C1.
+Qed.
+
+Lemma x_delete_column_sound e e' : x_delete_column e = Ok e' -> xedit_chain e e'.
+Proof.
+  intro H. unfold x_delete_column in H. destruct (get_current_layer (xb (cur e))) as [i| |] eqn:Ec; cbn [bind] in H; try discriminate.
+  destruct (get_current_layer_ok _ _ Ec) as (L & Hn). set (col := caret_x (xb (cur e))) in *.
+  destruct (xpush_sound _ _ e (XDeleteColumn i col []) (upd_x (cur e) i (del_col (col_index col))) delcol_closed) as (e1 & E1 & C1 & _).
+  { exists i, col, [], L. split; [reflexivity|]. split; [exact Hn|apply xeqv_refl]. }
+  xfinish H E1 C1.
+Qed.
+
+Lemma x_insert_column_sound e e' : x_insert_column e = Ok e' -> xedit_chain e e'.
+Proof.
+  intro H. unfold x_insert_column in H. destruct (get_current_layer (xb (cur e))) as [i| |] eqn:Ec; cbn [bind] in H; try discriminate.
+  destruct (get_current_layer_ok _ _ Ec) as (L & Hn). set (col := caret_x (xb (cur e))) in *.
+  destruct (xpush_sound _ _ e (XInsertColumn i col) (upd_x (cur e) i (ins_col (col_index col))) (xstable_lclosed _ inscol_stable)) as (e1 & E1 & C1 & _).
+  { exists i, col, L. split; [reflexivity|]. split; [exact Hn|apply xeqv_refl]. }
+  xfinish H E1 C1.
+Qed.
+
+(* ================================================================================================================
    the modelled operations on the full document, each with its known class *)
 (* the operations of Model/EditOps.v that read nothing but the layer document (resize_buffer and everything that reads the
    selection mask or the font table have their own definitions on the full document) *)
@@ -478,20 +526,24 @@ Inductive xmodelled : (XE -> res XE) -> (xstate -> Prop) -> Prop :=
 | xm_erase_column_to_start : xmodelled x_erase_column_to_start never
 | xm_erase_column_to_end : xmodelled x_erase_column_to_end never
 | xm_rotate_layer rtab : xmodelled (x_rotate_layer rtab) never
-| xm_scroll_area_whole up : xmodelled (x_scroll_area_whole up) never.
+| xm_scroll_area_whole up : xmodelled (x_scroll_area_whole up) never
+| xm_delete_row : xmodelled x_delete_row never
+| xm_insert_row : xmodelled x_insert_row never
+| xm_delete_column : xmodelled x_delete_column never
+| xm_insert_column : xmodelled x_insert_column never.
 
 Lemma xlift_sound f : bsound_edit f -> forall e e', xlift f e = Ok e' -> xedit_chain e e'.
 Proof. exact (lift_edit_sound f). Qed.
 
 Theorem xmodelled_sound f K : xmodelled f K -> forall e e', ~ K (cur e) -> f e = Ok e' -> xedit_chain e e'.
 Proof.
-  destruct 1 as [f Hl| | | | | | | | | | | | | | | | | | | | | | | | | | | | | | | | | | |]; intros e e' HK H;
+  destruct 1 as [f Hl| | | | | | | | | | | | | | | | | | | | | | | | | | | | | | | | | | | | | | |]; intros e e' HK H;
   try solve [eauto using x_resize_buffer_sound, x_switch_to_palette_sound, x_update_sauce_data_sound, x_switch_to_font_page_sound,
     x_set_font_sound, x_add_ansi_font_sound, x_replace_font_usage_sound, x_change_font_slot_sound, x_remove_font_sound,
     x_set_ice_mode_gen_sound, x_set_palette_mode_gen_sound, x_merge_layer_down_sound, x_anchor_layer_sound, x_paste_clipboard_data_sound,
     x_crop_rect_sound, x_crop_sound, x_resize_buffer_layers_sound, x_clear_selection_sound, x_add_selection_to_mask_sound,
     x_inverse_selection_sound, x_enumerate_selections_sound, x_erase_selection_sound, x_rotate_layer_sound, x_scroll_area_whole_sound,
-    x_line_erase_sound].
+    x_line_erase_sound, x_delete_row_sound, x_insert_row_sound, x_delete_column_sound, x_insert_column_sound].
   - eapply lift_edit_sound; [apply liftable_sound; exact Hl|exact H].
   - unfold x_flip_x in H. eapply lift_edit_sound; [apply api_flip_x_sound|exact H].
   - unfold x_flip_y in H. eapply lift_edit_sound; [apply api_flip_y_sound|exact H].
